@@ -120,7 +120,24 @@ BEHAVIOURS: List[Tuple[str, str]] = [
     ("raise-subclass-nonascii", "raises"),
     ("yield-then-return", "returns"),
     ("yield-then-raise", "raises"),
+    # exception classes a dispatcher might itself catch for its own purposes (lookup misses, bad params ...)
+    ("raise-KeyError", "raises"),
+    ("raise-KeyError-naming-the-registered-key", "raises"),
+    ("raise-LookupError", "raises"),
+    ("raise-IndexError", "raises"),
+    ("raise-ValueError", "raises"),
+    ("raise-TypeError", "raises"),
+    ("raise-AttributeError", "raises"),
+    ("raise-RuntimeError", "raises"),
+    ("raise-AssertionError", "raises"),
+    ("raise-OSError", "raises"),
+    ("raise-NotImplementedError", "raises"),
+    ("raise-UnicodeDecodeError", "raises"),
+    ("yield-then-raise-KeyError", "raises"),
 ]
+# methods whose dispatch reaches no scripted handler are run with these two behaviours only: a behaviour can only show
+# once its handler is reached (the harness fails if a scripted handler is reached there after all)
+REDUCED_BEHAVIOURS = [0, 6]
 
 METHODS: List[str] = []   # filled lazily (needs the library on sys.path)
 PARAMS: List[Any] = params_table()
@@ -143,7 +160,7 @@ class _HandlerFailure(Exception):
     pass
 
 
-async def _behave(b: int):
+async def _behave(b: int, key: str = ""):
     import anyio
 
     name = BEHAVIOURS[b][0]
@@ -169,6 +186,18 @@ async def _behave(b: int):
         return "late"
     if name == "yield-then-raise":
         raise ValueError("late boom")
+    if name == "raise-KeyError-naming-the-registered-key":
+        raise KeyError(key)
+    if name in ("raise-KeyError", "yield-then-raise-KeyError"):
+        raise KeyError("some-inner-key")
+    if name == "raise-UnicodeDecodeError":
+        raise UnicodeDecodeError("utf-8", b"\xff", 0, 1, "invalid start byte")
+    if name.startswith("raise-"):
+        cls = {"LookupError": LookupError, "IndexError": IndexError, "ValueError": ValueError, "TypeError": TypeError,
+               "AttributeError": AttributeError, "RuntimeError": RuntimeError, "AssertionError": AssertionError,
+               "OSError": OSError, "NotImplementedError": NotImplementedError}.get(name[6:])
+        if cls is not None:
+            raise cls(f"{name[6:]} from the handler")
     raise core.HarnessError(f"unknown behaviour {name}")
 
 
@@ -180,17 +209,17 @@ def build_server(b: int):
 
     async def tool(x=None, y=None):
         reached["n"] += 1
-        return await _behave(b)
+        return await _behave(b, TOOL)
 
     async def resource():
         reached["n"] += 1
-        return await _behave(b)
+        return await _behave(b, RES)
 
     async def custom(message, session_id):
         """A register_method handler that honours the handler contract: a
         (response, session) tuple; nothing for a message without id."""
         reached["n"] += 1
-        value = await _behave(b)
+        value = await _behave(b, getattr(message, "method", ""))
         if getattr(message, "id", None) is None:
             return None, None
         return srv.protocol_handler.create_response(message.id, {"value": repr(value)}), None
@@ -307,6 +336,8 @@ def build_input(mi: int, ii: int, pi: int) -> Dict[str, Any]:
 def run_one(ctl: explorer.Ctl, cfg: Dict[str, Any]) -> Dict[str, Any]:
     from chuk_mcp.protocol.messages.json_rpc_message import parse_message
 
+    if cfg.get("part") == "overlap":
+        return run_overlap(ctl, cfg)
     mi, ii = cfg["m"], cfg["i"]
     m = _methods()[mi]
     path, mkind = method_kind(m)
@@ -355,6 +386,8 @@ def run_one(ctl: explorer.Ctl, cfg: Dict[str, Any]) -> Dict[str, Any]:
                 count("judged")
                 if m in BEHAVIOUR_SENSITIVE or b == 0:
                     count("judged-distinct")
+                if m not in BEHAVIOUR_SENSITIVE:
+                    count("cases-on-reduced-behaviour-axis")
                 srv, reached = build_server(b)
                 try:
                     ret = await srv.protocol_handler.handle_message(msg)
@@ -363,6 +396,9 @@ def run_one(ctl: explorer.Ctl, cfg: Dict[str, Any]) -> Dict[str, Any]:
                     ret, exc = None, e
                 if reached["n"]:
                     count("scripted-handler-reached")
+                    if m not in BEHAVIOUR_SENSITIVE:
+                        raise core.HarnessError(f"a scripted handler was reached through method {m!r}: the behaviour axis "
+                                                f"must not be reduced for it")
                 has_id = ref_kind == "request"
                 who = "request" if has_id else "notification"
                 if exc is not None:
@@ -466,6 +502,199 @@ def _show_id(i):
     return repr(i)[:40]
 
 
+# ---------------------------------------------------------------------------
+# overlapping dispatches on ONE server (E-SCHED): k concurrent handle_message calls, every handler waits for a
+# harness-controlled gate and then returns or raises; every interleaving of {start i, release i} (start i before
+# release i) is chosen with ctl.choose
+# ---------------------------------------------------------------------------
+OV_MSG = ["request-id-int-1", "request-id-str-2", "notification"]
+OV_IDS: List[Any] = [1, "2", None]
+OV_TARGET = ["tool", "resource", "custom-method"]
+OV_BEH = ["returns", "raises-KeyError", "raises-RuntimeError"]
+GATED_TOOL = "gated"
+GATED_CUSTOM = "custom/gated"
+
+
+def run_overlap(ctl: explorer.Ctl, cfg: Dict[str, Any]) -> Dict[str, Any]:
+    import asyncio
+
+    from chuk_mcp.protocol.messages.json_rpc_message import parse_message
+    from chuk_mcp.server.server import MCPServer
+
+    from .. import seams
+
+    calls = cfg["calls"]
+    k = len(calls)
+    loop = new_loop(horizon=5)
+    q = seams.Quiescence(loop)
+    srv = MCPServer("vf-c08-overlap", "0.0.1")
+    gates: List[Any] = [None] * k
+    reached = [0] * k
+    finished_order: List[int] = []
+
+    async def behave(i):
+        reached[i] += 1
+        await gates[i]
+        beh = OV_BEH[calls[i][2]]
+        if beh == "raises-KeyError":
+            raise KeyError(f"call-{i}")
+        if beh == "raises-RuntimeError":
+            raise RuntimeError(f"call-{i} failed")
+        return f"value-of-call-{i}"
+
+    async def tool(who=None):
+        return await behave(who)
+
+    def make_res(i):
+        async def res():
+            return await behave(i)
+        return res
+
+    async def custom(message, session_id):
+        value = await behave(message.params["who"])
+        if getattr(message, "id", None) is None:
+            return None, None
+        return srv.protocol_handler.create_response(message.id, {"value": value}), None
+
+    srv.register_tool(GATED_TOOL, tool, {"type": "object"}, "gated tool")
+    for i in range(k):
+        srv.register_resource(f"res://gated/{i}", make_res(i), name=f"g{i}")
+    srv.protocol_handler.register_method(GATED_CUSTOM, custom)
+
+    def wire_of(i):
+        mk, tg, _ = calls[i]
+        w: Dict[str, Any] = {"jsonrpc": "2.0"}
+        if OV_IDS[mk] is not None:
+            w["id"] = OV_IDS[mk]
+        if OV_TARGET[tg] == "tool":
+            w["method"], w["params"] = "tools/call", {"name": GATED_TOOL, "arguments": {"who": i}}
+        elif OV_TARGET[tg] == "resource":
+            w["method"], w["params"] = "resources/read", {"uri": f"res://gated/{i}"}
+        else:
+            w["method"], w["params"] = GATED_CUSTOM, {"who": i}
+        return w
+
+    wires = [wire_of(i) for i in range(k)]
+    results: List[Any] = [None] * k
+    order: List[str] = []
+
+    async def one(i):
+        try:
+            ret = await srv.protocol_handler.handle_message(parse_message(json.loads(json.dumps(wires[i]))))
+            results[i] = ("returned", ret)
+        except Exception as e:  # noqa: BLE001 - the property: nothing escapes
+            results[i] = ("raised", e)
+        finished_order.append(i)
+
+    async def main():
+        started = [False] * k
+        released = [False] * k
+        tasks = []
+        for i in range(k):
+            gates[i] = loop.create_future()
+        while True:
+            menu = [("start", i) for i in range(k) if not started[i]] + \
+                   [("release", i) for i in range(k) if started[i] and not released[i]]
+            if not menu:
+                break
+            act, i = menu[ctl.choose(len(menu), "action")] if len(menu) > 1 else menu[0]
+            order.append(f"{act}{i}")
+            if act == "start":
+                started[i] = True
+                tasks.append(asyncio.ensure_future(one(i)))
+            else:
+                released[i] = True
+                gates[i].set_result(None)
+            await q.settle()
+        await asyncio.gather(*tasks)
+
+    status, val = loop.run_main(main())
+    errors = loop.collect_errors()
+    loop.abandon()
+    if status != "ok":
+        raise core.HarnessError(f"overlap {cfg} did not complete: {status} {val!r}")
+    if sum(reached) == 0:
+        raise core.HarnessError("seam missing: no gated handler was reached")
+    viol: List[dict] = []
+    toks = []
+    # did another dispatch begin or end while this call's handler was suspended?
+    for i in range(k):
+        mk, tg, bh = calls[i]
+        own_id = OV_IDS[mk]
+        raises = OV_BEH[bh] != "returns"
+        pos_s, pos_r = order.index(f"start{i}"), order.index(f"release{i}")
+        overlapped = any(pos_s < order.index(f"{a}{j}") < pos_r for j in range(k) if j != i for a in ("start", "release"))
+        ctx = {"message": OV_MSG[mk], "handler": OV_TARGET[tg], "own_handler": OV_BEH[bh],
+               "others_ran_while_suspended": overlapped}
+
+        def bad(cls, msg, **extra):
+            viol.append({"sig": {"class": cls, **ctx, **extra},
+                         "msg": f"call {i} ({wires[i]}) of {wires} in order {order}: {msg}"})
+
+        how, ret = results[i]
+        if how == "raised":
+            toks.append("raised")
+            bad("overlapped-dispatch-raised", f"handle_message raised {type(ret).__name__}: {str(ret)[:100]}",
+                detail=type(ret).__name__)
+            continue
+        if not (isinstance(ret, tuple) and len(ret) == 2):
+            toks.append("bad-shape")
+            bad("bad-return-shape", f"returned {ret!r}")
+            continue
+        resp = ret[0]
+        if own_id is None:
+            if resp is None:
+                toks.append("none")
+            else:
+                d = _dump(resp)
+                toks.append("note-answered")
+                bad("notification-got-response", f"a message without id was answered with {d!r}", detail=_token(d),
+                    id_is_of_another_call=isinstance(d, dict) and any(strict_eq(d.get("id"), OV_IDS[calls[j][0]])
+                                                                      for j in range(k) if j != i))
+            continue
+        if resp is None:
+            toks.append("no-response")
+            bad("request-got-no-response", "a request with an id got no response")
+            continue
+        d = _dump(resp)
+        kind, why = classify(d) if isinstance(d, dict) else (None, "not an object")
+        if kind not in ("result", "error"):
+            toks.append("invalid")
+            bad("invalid-response-envelope", f"{d!r}: {why}")
+            continue
+        tok = _token(d)
+        toks.append(tok)
+        if not strict_eq(d.get("id"), own_id):
+            other = any(strict_eq(d.get("id"), OV_IDS[calls[j][0]]) for j in range(k) if j != i)
+            bad("wrong-response-id", f"response carries id {d.get('id')!r}, the request's id is {own_id!r}",
+                carries="id-of-another-in-flight-call" if other else "other")
+        want = "E-32603" if raises else "R"
+        if tok != want:
+            bad("wrong-outcome", f"own handler {OV_BEH[bh]}: expected {want}, got {tok}: {d!r}", got=tok)
+    if errors:
+        viol.append({"sig": {"class": "loop-error"}, "msg": f"{errors[:2]}"})
+    return {"outcome": "/".join(toks), "order": order, "finished": finished_order, "violations": viol,
+            "counters": {"overlap-executions": 1, "calls-judged": k,
+                         "executions-with-a-dispatch-during-a-suspension": int(any(
+                             order.index(f"start{i}") + 1 != order.index(f"release{i}") for i in range(k)))}}
+
+
+def overlap_configs(tier: str) -> List[Dict[str, Any]]:
+    out = []
+    # two calls: every ordered pair of messages with distinct ids (two notifications allowed) x targets x behaviours
+    pairs = [(a, b) for a in range(3) for b in range(3) if a != b or a == 2]
+    for (a, b) in pairs:
+        for ta, tb, ba, bb in itertools.product(range(3), range(3), range(3), range(3)):
+            out.append({"part": "overlap", "calls": [[a, ta, ba], [b, tb, bb]]})
+    # three calls: the three messages in every order x behaviours; targets: all the same (quick) / every combination
+    for perm in itertools.permutations(range(3)):
+        for bs in itertools.product(range(3), repeat=3):
+            tgs = [(t, t, t) for t in range(3)] if tier == "quick" else list(itertools.product(range(3), repeat=3))
+            for ts in tgs:
+                out.append({"part": "overlap", "calls": [[perm[j], ts[j], bs[j]] for j in range(3)]})
+    return out
+
+
 def _dump(resp) -> Any:
     try:
         return resp.model_dump(exclude_none=True)
@@ -493,7 +722,8 @@ def run(tier: str, only=None) -> core.Result:
     res = core.Result("C08", "exploration")
     _check_tables()
     ms = _methods()
-    cfgs = [{"m": mi, "i": ii, "b": b} for mi in range(len(ms)) for ii in range(len(IDS)) for b in range(len(BEHAVIOURS))]
+    cfgs = [{"m": mi, "i": ii, "b": b} for mi in range(len(ms)) for ii in range(len(IDS))
+            for b in (range(len(BEHAVIOURS)) if ms[mi] in BEHAVIOUR_SENSITIVE else REDUCED_BEHAVIOURS)]
     out = explorer.explore(RUN, cfgs)
     part = "methods-x-ids-x-params-x-behaviours"
     sched.absorb(res, part, RUN, out, cfgs)
@@ -502,20 +732,30 @@ def run(tier: str, only=None) -> core.Result:
     # those single-case executions carry the violations (replay files are one input each)
     twopass.second_pass(res, RUN, [part], per_sig=PER_SIG)
     c = res.parts[part]["counters"]
-    space = len(ms) * len(IDS) * len(PARAMS) * len(BEHAVIOURS)
+    n_sens = sum(1 for x in ms if x in BEHAVIOUR_SENSITIVE)
+    space = (n_sens * len(BEHAVIOURS) + (len(ms) - n_sens) * len(REDUCED_BEHAVIOURS)) * len(IDS) * len(PARAMS)
     if c.get("cases", 0) != space and not out["errors"]:
         res.harness_errors.append(f"enumeration incomplete: {c.get('cases', 0)} cases run, product is {space}")
     if not c.get("scripted-handler-reached") and not out["errors"]:
         res.harness_errors.append("seam missing: no scripted tool/resource/custom handler was ever reached")
-    res.coverage["evaluations"] = c.get("cases", 0)
-    res.coverage["distinct_nontrivial"] = c.get("judged-distinct", 0)
+    ocfgs = overlap_configs(tier)
+    out3 = explorer.explore(RUN, ocfgs)
+    sched.absorb(res, "overlapping-dispatches", RUN, out3, ocfgs)
+    oc = res.parts["overlapping-dispatches"]
+    res.coverage["overlap_configurations"] = len(ocfgs)
+    res.coverage["overlap_executions"] = oc["executions"]
+    res.coverage["overlap_executions_with_a_dispatch_during_a_suspension"] = oc["counters"].get(
+        "executions-with-a-dispatch-during-a-suspension", 0)
+    res.coverage["evaluations"] = c.get("cases", 0) + oc["executions"]
+    res.coverage["distinct_nontrivial"] = c.get("judged-distinct", 0) + oc["distinct_observations"]
     res.coverage["judged"] = c.get("judged", 0)
     res.coverage["violating_judgements"] = c.get("violating-judgements", 0)
     res.coverage["violating_judgements_by_signature"] = {k[4:]: v for k, v in sorted(c.items()) if k.startswith("sig:")}
     res.coverage["rejected_by_parse_message"] = c.get("rejected-by-parse_message", 0)
     res.coverage["accepted_but_not_jsonrpc_not_judged"] = c.get("accepted-by-parse_message-but-not-jsonrpc:not-judged", 0)
     res.coverage["dimensions"] = {"methods": len(ms), "ids": len(IDS), "params": len(PARAMS),
-                                  "behaviours": len(BEHAVIOURS), "product": space}
+                                  "behaviours": len(BEHAVIOURS), "behaviour_sensitive_methods": n_sens,
+                                  "behaviours_for_other_methods": len(REDUCED_BEHAVIOURS), "cases": space}
     res.coverage["exhaustive"] = True
     res.coverage["samples"] = [
         {"input": build_input(ms.index("notifications/cancelled"), 0, 0), "behaviour": BEHAVIOURS[0][0]},
@@ -526,11 +766,19 @@ def run(tier: str, only=None) -> core.Result:
         "full product of methods (every MessageMethod value found by introspection, two register_method names, "
         "unknown strings incl. Unicode, 300 chars, NUL, empty) x ids (absent, 17 int/str boundary ids, 6 non-ids) x "
         "params (absent, null, {}, non-objects, name x arguments x extra members, uri x extra members, initialize / "
-        "notification shaped) x handler behaviours (return str/dict/list/None/object/unserialisable, raise Exception / "
-        "subclass with non-ASCII text, with and without a suspension first); each case on a fresh MCPServer.  "
+        "notification shaped) x handler behaviours (return str/dict/list/None/object/unserialisable; raise Exception, a subclass "
+        "with non-ASCII text, KeyError (also naming the registered tool / uri / method), LookupError, IndexError, ValueError, "
+        "TypeError, AttributeError, RuntimeError, AssertionError, OSError, NotImplementedError, UnicodeDecodeError; with and "
+        "without a suspension first) for tool, resource and register_method handlers alike; methods whose dispatch reaches no "
+        "scripted handler run with two behaviours only (checked: no scripted handler is reached there); each case on a fresh "
+        "MCPServer.  "
         "evaluations = cases run; judged = accepted by parse_message AND a request/notification by the reference "
         "grammar; distinct_nontrivial = judged cases, the behaviour axis counted once for methods whose dispatch "
-        "reaches no scripted handler"
+        "reaches no scripted handler.  Overlap part: 2 or 3 concurrent handle_message calls on ONE MCPServer (messages: request "
+        "id 1, request id '2', notification; targets: tool / resource / register_method handler; each handler awaits a "
+        "harness-owned future, then returns, raises KeyError or raises RuntimeError), every interleaving of start i / release i "
+        "with start i before release i, run to quiescence after each step on the virtual loop; each call judged by the same rule "
+        "(own id, none for the notification, -32603 iff its own handler raised)"
     )
     res.assumptions = [
         "well-formed = accepted by the library's parse_message and a request/notification by the JSON-RPC reference grammar "
@@ -543,5 +791,7 @@ def run(tier: str, only=None) -> core.Result:
         "register_method handlers honour their contract (return a (response, session) tuple or raise Exception); "
         "handlers returning something else, raising BaseException, or raising exceptions whose __str__ fails are outside the alphabet",
         "the session_id argument of handle_message is None throughout (sessions are C19's subject)",
+        "overlap part: two in-flight requests never share an id; a handler released before it is started (i.e. one that does "
+        "not suspend) is the block part's subject; virtual loop schedules ready callbacks FIFO like stock asyncio",
     ]
     return res
